@@ -86,6 +86,17 @@ pub fn check_roundtrip(c: &RoundTrip) -> CaseResult {
     let expect = pad8(&c.v);
     let bits = |v: &[f32]| v.iter().map(|x| x.to_bits()).collect::<Vec<_>>();
     ensure!(bits(&back) == bits(&back2), "roundtrip-variants", "from_vec(&Vec) and from_vec(Vec) differ");
+    // an owned vector that was grown, reserved or truncated: its spare capacity is not part of it
+    let spare = 1 + (c.v.len() * 7 + c.v.first().map(|x| x.to_bits() as usize % 23).unwrap_or(3)) % 40;
+    let mut grown: Vec<f32> = Vec::with_capacity(c.v.len() + spare);
+    grown.extend_from_slice(&c.v);
+    let back3: Vec<f32> = Vec::from_vec(&Feature::from_vec(grown));
+    ensure!(bits(&back) == bits(&back3), "roundtrip-spare-capacity", "from_vec(Vec) of a vector of {} values with {} spare capacity packs to {} values, from_vec(&Vec) to {}", c.v.len(), spare, back3.len(), back.len());
+    let mut truncated = c.v.clone();
+    truncated.extend(std::iter::repeat(1.5f32).take(spare));
+    truncated.truncate(c.v.len());
+    let back4: Vec<f32> = Vec::from_vec(&Feature::from_vec(truncated));
+    ensure!(bits(&back) == bits(&back4), "roundtrip-truncated", "from_vec(Vec) of a vector truncated from {} to {} values gives {:?}", c.v.len() + spare, c.v.len(), back4);
     if c.v.is_empty() {
         ensure!(back.is_empty() || bits(&back) == vec![0u32; 8], "roundtrip-empty", "empty vector packs to {:?}", back);
     } else {
